@@ -26,7 +26,11 @@ Svc(P, ms)    == Service("Svc", TRUE, Parts(TRUE, <<Lit("api")>>, FALSE), ms)
 (* C12: one offending construct per documented rule.                       *)
 (***************************************************************************)
 Rules == {"R1", "R2", "R3", "R4", "R5", "R6", "R7", "R8", "R9", "R10", "R11", "R12", "R13", "R14", "R15", "R16",
-          "R17", "R18", "R19", "R20", "R21", "R22", "R23", "R24"}
+          "R17", "R18", "R19", "R20", "R21", "R22", "R23", "R24",
+          \* collision rules against other sibling shapes: o = the colliding sibling is a proto3 optional
+          \* field, x = it is a member of another (plain) oneof
+          "R15o", "R15x", "R17o", "R17x", "R19o", "R19x"}
+BaseRule(r) == CASE r \in {"R15o", "R15x"} -> "R15" [] r \in {"R17o", "R17x"} -> "R17" [] r \in {"R19o", "R19x"} -> "R19" [] OTHER -> r
 MessageRules == Rules \ {"R21", "R22", "R23", "R24"}
 
 \* the offending message "Bad" (full name given) for a message-level rule
@@ -59,9 +63,24 @@ Bad(P, full, r) ==
        [] r = "R19" -> MsgO("Bad", full, <<F("x", "x", 1, "string", "one"),
                                            InOneof(FRef("a", "a", 2, "message", "one", c), "o")>>, <<Oneof("o", TRUE, "type", TRUE)>>)
        [] r = "R20" -> Msg("Bad", full, <<Ann(FRef("a", "a", 1, "enum", "one", e), "enumEnc", "NUMBER")>>)
+       [] r = "R15o" -> Msg("Bad", full, <<F("x", "x", 1, "string", "opt"), Ann(FRef("a", "a", 2, "message", "one", c), "flatten", TRUE)>>)
+       [] r = "R15x" -> MsgO("Bad", full, <<InOneof(F("x", "x", 1, "string", "one"), "other"), InOneof(F("w", "w", 3, "int32", "one"), "other"),
+                                            Ann(FRef("a", "a", 2, "message", "one", c), "flatten", TRUE)>>, <<Oneof("other", FALSE, "", FALSE)>>)
+       [] r = "R17o" -> MsgO("Bad", full, <<F("kind", "kind", 1, "string", "opt"),
+                                            InOneof(FRef("a", "a", 2, "message", "one", c), "o"),
+                                            InOneof(FRef("b", "b", 3, "message", "one", c2), "o")>>, <<Oneof("o", TRUE, "kind", FALSE)>>)
+       [] r = "R17x" -> MsgO("Bad", full, <<InOneof(F("kind", "kind", 1, "string", "one"), "other"), InOneof(F("w", "w", 4, "int32", "one"), "other"),
+                                            InOneof(FRef("a", "a", 2, "message", "one", c), "o"),
+                                            InOneof(FRef("b", "b", 3, "message", "one", c2), "o")>>,
+                                 <<Oneof("other", FALSE, "", FALSE), Oneof("o", TRUE, "kind", FALSE)>>)
+       [] r = "R19o" -> MsgO("Bad", full, <<F("x", "x", 1, "string", "opt"),
+                                            InOneof(FRef("a", "a", 2, "message", "one", c), "o")>>, <<Oneof("o", TRUE, "type", TRUE)>>)
+       [] r = "R19x" -> MsgO("Bad", full, <<InOneof(F("x", "x", 1, "string", "one"), "other"), InOneof(F("w", "w", 3, "int32", "one"), "other"),
+                                            InOneof(FRef("a", "a", 2, "message", "one", c), "o")>>,
+                                 <<Oneof("other", FALSE, "", FALSE), Oneof("o", TRUE, "type", TRUE)>>)
 
 \* the primary name an error message must mention for each rule
-OffenderName(r) == CASE r \in {"R14"} -> "a" [] r \in {"R17", "R18", "R19"} -> "o"
+OffenderName(r) == CASE r \in {"R14"} -> "a" [] r \in {"R17", "R18", "R19", "R17o", "R17x", "R19o", "R19x"} -> "o"
                      [] r = "R21" -> "nope" [] r = "R22" -> "c" [] r = "R23" -> "a" [] r = "R24" -> "Do" [] OTHER -> "a"
 
 Placements == {"top", "nested", "otherfile", "imported"}
@@ -390,7 +409,7 @@ ShapeParts(sh, n) ==
 ShapeVars(sh) == CASE sh \in {"lit_var", "var_lit", "var"} -> <<"a">> [] sh = "deep" -> <<"a", "b", "c">>
                    [] sh = "var_var" -> <<"a", "b">> [] OTHER -> <<>>
 RealVerbs == {"GET", "POST", "PUT", "DELETE", "PATCH"}
-NameShapes == {"Get", "GetUser", "GetHTTPStatus", "GetV2Item"}
+NameShapes == {"Get", "GetUser", "GetHTTPStatus", "GetV2Item", "Verify2faCode", "Base64decode", "get_lower_snake"}
 VerbCamel(v) == CASE v = "GET" -> "Get" [] v = "POST" -> "Post" [] v = "PUT" -> "Put" [] v = "DELETE" -> "Delete" [] v = "PATCH" -> "Patch"
 \* method descriptors: [cfg, shape, verb, name]
 C03Descs ==
@@ -418,4 +437,61 @@ C03Case(P, base, pkgDiff) ==
   IN Schema(<<File(P \o "/svc.proto", pkg, GoPkg(P), TRUE, <<>>,
                    <<Service("Svc", base # "none", BaseParts(base), [i \in 1..Len(ds) |-> me(ds[i])])>>,
                    <<[Out(P) EXCEPT !.full = full("Out")]>> \o [i \in 1..Len(ds) |-> rq(ds[i])], <<>>)>>)
+
+(***************************************************************************)
+(* C04 / C05: each annotated construct A in each context inside the RPC's  *)
+(* top-level message.                                                      *)
+(***************************************************************************)
+Constructs == {"int64num", "enumcustom", "enumnum", "nullable", "empty", "ts", "bytes", "oneof", "oneofflat", "flatten",
+               "flattenprefix", "unwraplist", "unwrapmap", "multiword", "int64rep", "plain"}
+TS == "google.protobuf.Timestamp"
+\* the annotated message A (and the helper messages it needs)
+ConstructMsgs(P, c) ==
+  LET a(fs) == Msg("A", FN(P, "A"), fs)
+      ch == FN(P, "Child") c2 == FN(P, "Child2")
+  IN CASE c = "int64num"   -> <<a(<<Ann(F("n", "n", 1, "int64", "one"), "int64", "NUMBER"), Ann(F("u", "u", 2, "uint64", "one"), "int64", "NUMBER"), F("s", "s", 3, "string", "one")>>)>>
+       [] c = "int64rep"   -> <<a(<<Ann(F("ns", "ns", 1, "int64", "rep"), "int64", "NUMBER"), Ann(FMap("by", "by", 2, "string", "sint64", ""), "int64", "NUMBER")>>)>>
+       [] c = "enumcustom" -> <<a(<<FRef("e", "e", 1, "enum", "one", FN(P, "E")), FRef("es", "es", 2, "enum", "rep", FN(P, "E")), F("s", "s", 3, "string", "one")>>)>>
+       [] c = "enumnum"    -> <<a(<<Ann(FRef("e", "e", 1, "enum", "one", FN(P, "P")), "enumEnc", "NUMBER"), F("s", "s", 2, "string", "one")>>)>>
+       [] c = "nullable"   -> <<a(<<Ann(F("s", "s", 1, "string", "opt"), "nullable", TRUE), Ann(F("n", "n", 2, "int32", "opt"), "nullable", TRUE), F("k", "k", 3, "int32", "one")>>)>>
+       [] c = "empty"      -> <<a(<<Ann(FRef("c", "c", 1, "message", "one", ch), "empty", "NULL"), Ann(FRef("d", "d", 2, "message", "one", ch), "empty", "OMIT"),
+                                   Ann(FRef("p", "p", 3, "message", "one", ch), "empty", "PRESERVE"), F("s", "s", 4, "string", "one")>>)>>
+       [] c = "ts"         -> <<a(<<Ann(FRef("t", "t", 1, "message", "one", TS), "ts", "UNIX_SECONDS"), Ann(FRef("u", "u", 2, "message", "one", TS), "ts", "DATE"),
+                                   Ann(FRef("m", "m", 3, "message", "one", TS), "ts", "UNIX_MILLIS"), FRef("r", "r", 4, "message", "one", TS)>>)>>
+       [] c = "bytes"      -> <<a(<<Ann(F("b", "b", 1, "bytes", "one"), "bytes", "HEX"), Ann(F("c", "c", 2, "bytes", "one"), "bytes", "BASE64URL_RAW"), F("d", "d", 3, "bytes", "one")>>)>>
+       [] c = "oneof"      -> <<MsgO("A", FN(P, "A"), <<F("k", "k", 1, "string", "one"), InOneof(FRef("a", "a", 2, "message", "one", ch), "o"),
+                                     InOneof(Ann(FRef("b", "b", 3, "message", "one", c2), "oneofValue", "bee"), "o")>>, <<Oneof("o", TRUE, "type", FALSE)>>)>>
+       [] c = "oneofflat"  -> <<MsgO("A", FN(P, "A"), <<F("k", "k", 1, "string", "one"), InOneof(FRef("a", "a", 2, "message", "one", ch), "o"),
+                                     InOneof(FRef("b", "b", 3, "message", "one", c2), "o")>>, <<Oneof("o", TRUE, "type", TRUE)>>)>>
+       [] c = "flatten"    -> <<a(<<F("k", "k", 1, "string", "one"), Ann(FRef("c", "c", 2, "message", "one", ch), "flatten", TRUE)>>)>>
+       [] c = "flattenprefix" -> <<a(<<F("x", "x", 1, "string", "one"), Ann(Ann(FRef("c", "c", 2, "message", "one", ch), "flatten", TRUE), "prefix", "c_")>>)>>
+       [] c = "unwraplist" -> <<a(<<Ann(F("items", "items", 1, "string", "rep"), "unwrap", TRUE)>>)>>
+       [] c = "unwrapmap"  -> <<Msg("L", FN(P, "L"), <<Ann(FRef("items", "items", 1, "message", "rep", ch), "unwrap", TRUE)>>),
+                                a(<<FMap("by_key", "byKey", 1, "string", "message", FN(P, "L")), F("sib_ling", "sibLing", 2, "string", "one")>>)>>
+       [] c = "multiword"  -> <<a(<<Ann(F("big_number", "bigNumber", 1, "int64", "one"), "int64", "NUMBER"), F("plain_text", "plainText", 2, "string", "one"),
+                                   F("with2digits", "with2digits", 3, "int32", "one")>>)>>
+       [] c = "plain"      -> <<a(<<F("s", "s", 1, "string", "one"), F("n", "n", 2, "int64", "one"), FRef("c", "c", 3, "message", "one", ch),
+                                   FRef("e", "e", 4, "enum", "one", FN(P, "P")), F("b", "b", 5, "bytes", "one"), F("f", "f", 6, "double", "one"),
+                                   FMap("m", "m", 7, "int32", "string", ""), F("r", "r", 8, "bool", "rep")>>)>>
+Contexts == {"top", "child", "rep", "mapv", "oneofvar", "flatchild", "discvar", "unwrapsib"}
+\* the top-level message W holding A in a context (for "top", the RPC message is A itself)
+ContextMsgs(P, cx) ==
+  LET an == FN(P, "A")
+      w(fs) == Msg("W", FN(P, "W"), fs)
+  IN CASE cx = "top"       -> <<>>
+       [] cx = "child"     -> <<w(<<FRef("a", "a", 1, "message", "one", an), F("z", "z", 2, "string", "one")>>)>>
+       [] cx = "rep"       -> <<w(<<FRef("items", "items", 1, "message", "rep", an)>>)>>
+       [] cx = "mapv"      -> <<w(<<FMap("m", "m", 1, "string", "message", an)>>)>>
+       [] cx = "oneofvar"  -> <<MsgO("W", FN(P, "W"), <<InOneof(FRef("a", "a", 1, "message", "one", an), "o"), InOneof(F("s", "s", 2, "string", "one"), "o")>>,
+                                      <<Oneof("o", FALSE, "", FALSE)>>)>>
+       [] cx = "flatchild" -> <<w(<<F("zz", "zz", 1, "string", "one"), Ann(FRef("a", "a", 2, "message", "one", an), "flatten", TRUE)>>)>>
+       [] cx = "discvar"   -> <<MsgO("W", FN(P, "W"), <<InOneof(FRef("a", "a", 1, "message", "one", an), "o"), InOneof(FRef("b", "b", 2, "message", "one", FN(P, "Child2")), "o")>>,
+                                      <<Oneof("o", TRUE, "kind", FALSE)>>)>>
+       [] cx = "unwrapsib" -> <<Msg("UL", FN(P, "UL"), <<Ann(F("vals", "vals", 1, "string", "rep"), "unwrap", TRUE)>>),
+                                w(<<FMap("by_key", "byKey", 1, "string", "message", FN(P, "UL")), FRef("a", "a", 2, "message", "one", an)>>)>>
+C05Case(P, c, cx) ==
+  LET top == IF cx = "top" THEN FN(P, "A") ELSE FN(P, "W")
+  IN Schema(<<File(P \o "/svc.proto", Pkg(P), GoPkg(P), TRUE, <<>>,
+                   <<Svc(P, <<Method("Do", top, top, TRUE, Parts(TRUE, <<Lit("do")>>, FALSE), "POST")>>)>>,
+                   <<Child(P), Child2(P)>> \o ConstructMsgs(P, c) \o ContextMsgs(P, cx), <<EnumE, EnumPlain>>)>>)
 =============================================================================
